@@ -458,3 +458,6 @@ WRULES_FRESH = [(p, (5 if p.startswith("InnerRecv") else b)) for (p, b) in WRULE
 for _n, _h in HARNESSES.items():
     if _h["mod"] == "scen_wait" and not _n.endswith("_lap"):
         _h["rules"] = (WRULES_FRESH + FUTRULES) if _n.startswith("c15_") else WRULES_FRESH
+
+for _n in ("c04_bc_shared_inclone", "c04_bc_streams_inclone", "c18_bc_shared_inclone_mw", "c05_mp_shared_all"):
+    HARNESSES[_n]["mem_gb"] = 26
